@@ -904,3 +904,9 @@ NOT_PROVED = [x for x in NOT_PROVED if not any(k in str(x) for k in ('quad5 exac
 # into lean/Compute/Generated/SrcC07.lean and proved equal to the hand model in Props/SrcTieC07.lean)
 from . import srctie
 srctie.wire(globals(), 'C07')
+
+# --- source tie, loops (tools/rs2lean.py loops=True: accumulation loops and iterator chains regenerated from /repo/src into
+# Generated/SrcC07Loops.lean and proved equal to the hand model in Props/SrcTieC07Loops.lean)
+from . import srctie
+srctie.wire_loops(globals(), 'C07')
+PROOF_MODULES = PROOF_MODULES + ['Compute.Lemmas.SrcLoops']
